@@ -71,7 +71,7 @@ def ieval(g, rd, f, idx, ctx, env, depth=0):
         c = ieval(g, rd, f, n['cnd'], ctx, env, depth + 1)
         if c is None:
             return None
-        return ieval(g, rd, f, n['th'] if c else n['el'], ctx, env, depth + 1)
+        return ieval(g, rd, f, n['a'] if c else n['b'], ctx, env, depth + 1)
     if k == 'unop':
         v = ieval(g, rd, f, n['e'], ctx, env, depth + 1)
         if n['op'] == '&':
